@@ -19,6 +19,7 @@ import (
 
 type c11Sched struct {
 	name    string
+	full    bool // block 0 is full (16384 rows) and two rows live in block 1: inserts re-use offsets of block 1
 	threads [][]model.Act
 	fails   []bool
 }
@@ -37,6 +38,11 @@ func c11SchedScenarios() []c11Sched {
 			{{Op: "put", Off: 0, W: []model.Write{{Col: "v", V: model.Val{N: 99}}}}},
 			{{Op: "del", Off: 0}},
 			{{Op: "insert", W: []model.Write{{Col: "s", V: model.Val{S: "new"}}}}}}},
+		// a transaction spanning two blocks (update in block 0, delete of the last row in
+		// block 1) beside inserts that re-use the freed offset
+		{name: "two-block-update+delete||insert", full: true, threads: [][]model.Act{
+			{{Op: "put", Off: 0, W: []model.Write{{Col: "v", V: model.Val{N: 50}}}}, {Op: "del", Off: 16385}},
+			{ins(12, false)}}},
 		{name: "insert-merge||delete+insert", threads: [][]model.Act{
 			{{Op: "insert", W: []model.Write{{Col: "v", V: model.Val{N: 5}, Merge: true}}}},
 			{{Op: "del", Off: 0}, ins(12, false)}}},
@@ -48,8 +54,20 @@ func (sc c11Sched) instance() *eng.SchedInstance {
 	w := sw.w
 	// rows 0 and 1 seeded through the API, so that a delete frees a low offset
 	w.Sched = false
-	w.Txn([]model.Act{{Op: "insert", W: []model.Write{{Col: "v", V: model.Val{N: 1}}, {Col: "s", V: model.Val{S: "old"}}}},
-		{Op: "insert", W: []model.Write{{Col: "v", V: model.Val{N: 2}}, {Col: "s", V: model.Val{S: "old"}}}}}, false)
+	if sc.full {
+		// block 0 is filled directly (16384 filler rows, not tracked by the model: the
+		// oracle counts them); the two rows of block 1 are modelled
+		w.C.Query(func(txn *column.Txn) error {
+			for i := 0; i < 16384; i++ {
+				txn.Insert(func(r column.Row) error { r.SetInt("v", 1); return nil })
+			}
+			return nil
+		})
+		w.Txn([]model.Act{{Op: "insert", W: []model.Write{{Col: "v", V: model.Val{N: 1}}}}, {Op: "insert", W: []model.Write{{Col: "v", V: model.Val{N: 1}}}}}, false)
+	} else {
+		w.Txn([]model.Act{{Op: "insert", W: []model.Write{{Col: "v", V: model.Val{N: 1}}, {Col: "s", V: model.Val{S: "old"}}}},
+			{Op: "insert", W: []model.Write{{Col: "v", V: model.Val{N: 2}}, {Col: "s", V: model.Val{S: "old"}}}}}, false)
+	}
 	w.Sched = true
 	w.Commits, w.Emitters = nil, nil
 	for i, acts := range sc.threads {
@@ -101,6 +119,18 @@ func (sc c11Sched) instance() *eng.SchedInstance {
 			kinds := func(c string) *model.KindDesc { return w.M.Col(c) }
 			want := renderBlock(cols, modelRows(m), 0, kinds)
 			got := renderBlock(cols, implRows(w), 0, kinds)
+			if sc.full {
+				// block 0 is 16384 identical filler rows: compare block 1, and block 0 by count
+				ir := implRows(w)
+				n0 := 0
+				for off := range ir {
+					if off>>14 == 0 {
+						n0++
+					}
+				}
+				want = fmt.Sprintf("block0:%d rows; ", 16384) + renderBlock(cols, modelRows(m), 1, kinds)
+				got = fmt.Sprintf("block0:%d rows; ", n0) + renderBlock(cols, ir, 1, kinds)
+			}
 			if got != want && len(vs) == 0 {
 				wit := "rows after concurrent inserts/deletes differ from what the committed transactions stored"
 				// known pattern: same rows, but a freshly inserted row on a re-used offset
@@ -129,9 +159,13 @@ func (sc c11Sched) instance() *eng.SchedInstance {
 				vs = append(vs, eng.Violation{Assert: "insert/values-intact", Witness: wit,
 					Detail: fmt.Sprintf("rows {%s}, committed transactions give {%s}", got, want)})
 			}
-			if c := w.C.Count(); c != len(m.Live) {
+			wantCount := len(m.Live)
+			if sc.full {
+				wantCount += 16384
+			}
+			if c := w.C.Count(); c != wantCount {
 				vs = append(vs, eng.Violation{Assert: "count", Witness: "Count differs from the number of live rows at quiescence",
-					Detail: fmt.Sprintf("Count()=%d, %d live rows", c, len(m.Live))})
+					Detail: fmt.Sprintf("Count()=%d, %d live rows", c, wantCount)})
 			}
 			return got, vs
 		},
@@ -153,7 +187,7 @@ func init() {
 		for _, sc := range c11SchedScenarios() {
 			sc := sc
 			b := 2
-			if len(sc.threads) == 2 {
+			if len(sc.threads) == 2 && !sc.full {
 				b = 3
 			}
 			if tier != "quick" {
